@@ -446,6 +446,10 @@ def control_battery():
     b.append(sc("A B Y\nlet j = 0;\nloop(i,2)\nwhile(j < 3)\nlet j = j + 1;\n(i) (j) X\nend while\nend loop\n",
                 [(0, 1), (0, 2), (0, 3)], "while in loop: variable bound in the while survives"))
     b.append(sc("A B Y\nwhile(0)\n1 1 X\nend while\n2 2 X\n", [(2, 2)], "zero-trip while"))
+    b.append(sc("A B Y\nlet k = 0;\nwhile(k < 1)\nlet k = k + 1;\nlet w = 5;\n(k) 0 X\nend while\n(w) 1 X\n", [(1, 0), (5, 1)],
+                "a variable first bound inside a while is visible after it"))
+    b.append(sc("A B Y\nloop(i,1)\nlet k = 0;\nwhile(k < 1)\nlet k = k + 1;\nlet w = 7;\nend while\n(w) (i) X\nend loop\n", [(7, 0)],
+                "a variable first bound inside a while inside a loop is visible in the rest of the loop body"))
     b.append(sc("A B Y\nbits(2,2) X\nbits(2,1) X\n", [(1, 0), (0, 1)], "bits most significant first"))
     b.append(sc("A B Y\nloop(i,2)\nloop(j,2)\n(i) (j) X\nend loop\nend loop\n", [(0, 0), (0, 1), (1, 0), (1, 1)], "nested loops"))
     b.append(sc("A B Y\nlet v = 1;\nloop(i,2)\nlet v = v + 1;\n(v) 0 X\nend loop\n(v) 0 X\n", [(2, 0), (3, 0), (1, 0)],
@@ -698,3 +702,57 @@ def bind_judge_one(o, sc):
 
 
 bind_judge = no_panic_judge(bind_judge_one)
+
+
+# ------------------------------------------------------------------ C15 determinism / static == dynamic
+
+def static_battery():
+    S = [("in", "A", 8, 0), ("in", "CLK", 1, 0), ("out", "Y", 8), ("out", "Q", 8)]
+    b = []
+    prog = "A CLK Y Q\nlet v = 2;\n1 0 3 X\n(v) C X 4\nloop(i,2)\n(i) X (i) Z\nend loop\n"
+    b.append(Scenario(prog, S, mode="both", default_answer=[3, 4], expect={"static": "ok"}, note="static then dynamic on the same test"))
+    b.append(Scenario(prog, S, mode="both", default_answer=["Z", -1], layout=["Q", "Y"], expect={"static": "ok"},
+                      note="static then dynamic, driver with another layout and odd values"))
+    b.append(Scenario(prog, S, mode="both", default_answer=[1], layout=["Y"], expect={"static": "ok"}, note="static then dynamic, subset layout"))
+    b.append(Scenario(prog, S, mode="both", default_answer=[3, 4], layout_at={2: ["Q", "Y"], 5: ["Q", "Y"]}, stop_on_err=False,
+                      expect={"static": "ok", "faulty_calls": [2, 5]}, note="driver glitches twice: the other rows equal the static rows"))
+    b.append(Scenario("A Y\nlet Q = Q + 1;\n(Q) X\n", S, mode="both", default_answer=[0, 6], expect={"static": "err"},
+                      note="a program that reads an output is not static"))
+    b.append(Scenario("A Y\n(Y) X\n", S, mode="both", default_answer=[1, 0], expect={"static": "err"}, note="reads an output in a row"))
+    b.append(Scenario("A Y\nloop(i, Q)\n1 X\nend loop\n", S, mode="both", default_answer=[0, 2], expect={"static": "err"}, note="reads an output in a loop bound"))
+    decl = "A Y V1 V2 V3 V4 V5\n" + "".join("declare V%d = Y + %d;\n" % (k, k) for k in (3, 1, 5, 2, 4)) + "1 X 1 2 3 4 5\n"
+    b.append(Scenario(decl, S, mode="both", default_answer=[0, 0], repeat_parse=40, expect={"static": "err", "reparse": True},
+                      note="five declarations: repeated parses give equal tests"))
+    return b
+
+
+def static_judge_one(o, sc):
+    e = sc.expect
+    if any(l.startswith("REPARSE differs") for l in o.lines):
+        return "parsing the same text again gives a different test (%s)" % sc.note
+    st = o.stage.get("STATIC", ("missing", ""))[0]
+    if e.get("static") and st != e["static"]:
+        return "try_iter_static is %s, expected %s (%s)" % (st, e["static"], sc.note)
+    if e.get("static") == "ok":
+        srows = o.srows
+        rows = [r for r in o.rows]
+        faulty = set(e.get("faulty_calls", []))
+        # dynamic rows (excluding the rows whose call glitched) must equal the static rows at the same position
+        items = [it for it in o.items if it[0] in ("row", "err")]
+        if len(items) != len(srows) and not any(l.startswith("TRUNC") for l in o.lines):
+            return "dynamic run yields %d items, static run %d rows (%s)" % (len(items), len(srows), sc.note)
+        for k, it in enumerate(items):
+            if it[0] == "err":
+                if not faulty:
+                    return "dynamic run has an error item where the static run has a row (%s): %s" % (sc.note, it[2][:80])
+                continue
+            row = it[1]
+            s = srows[k]
+            if row["line"] != s["line"] or row["inputs"] != s["inputs"]:
+                return "row %d differs between the static and the dynamic run: %s vs %s (%s)" % (k + 1, row["inputs"], s["inputs"], sc.note)
+            if row["outputs"] and [(n, x) for n, x, _, _, _ in row["outputs"]] != [(n, x) for n, x in s["expected"]]:
+                return "expected values of row %d differ between the static and the dynamic run (%s)" % (k + 1, sc.note)
+    return None
+
+
+static_judge = no_panic_judge(static_judge_one)
